@@ -66,16 +66,17 @@ def unit_grid(nu: int, nv: int, triangulate: bool = False, generate_uvs: bool=Fa
         uv_attr = out.vertices.create_attribute("uv_coords",float,2)
     for i,u in enumerate(U):
         for j,v in enumerate(V):
+            k = i*nv+j # index of vertex (i,j) : there are nv vertices per value of i
             out.vertices.append(Vec(u,v,0))
             if generate_uvs:
-                uv_attr[i*nu+j] = Vec(u,v)
+                uv_attr[k] = Vec(u,v)
             # generate faces
             if i<nu-1 and j<nv-1:
                 if triangulate: # add two triangles
-                    out.faces.append((i*nu+j, i*nu+j+1, (i+1)*nu+j))
-                    out.faces.append((i*nu+j+1, (i+1)*nu+j+1, (i+1)*nu+j))
+                    out.faces.append((k, k+1, k+nv))
+                    out.faces.append((k+1, k+nv+1, k+nv))
                 else: # add a quad
-                    out.faces.append((i*nu+j, i*nu+j+1, (i+1)*nu+j+1, (i+1)*nu+j))
+                    out.faces.append((k, k+1, k+nv+1, k+nv))
     return _instanciate_raw_mesh_data(out, 2)
 
 
